@@ -1,3 +1,401 @@
-import Driver.Common
-/- stub: model driver for C06 not built yet -/
-def main : IO Unit := Driver.lineLoop (fun _ => "unimplemented")
+import Driver.GenVL
+import ThriftVerif.Gen.Defaults
+/- model driver for C06: constants, defaults, getters (docs/C06.md has the line grammar) -/
+namespace Driver.C06
+open Gen Gen.Defaults Driver.GenVL
+
+/-! ### parsing -/
+
+def catOf : String → Option Cat
+  | "b" => some .bool | "y" => some .i8 | "h" => some .i16 | "i" => some .i32 | "l" => some .i64
+  | "d" => some .dbl | "s" => some .str | "B" => some .bin | "e" => some .enum
+  | "L" => some .list | "T" => some .set | "M" => some .map | "S" => some .strct
+  | _ => none
+
+partial def parseATy : P ATy
+  | "N" :: c :: ref :: nm :: r => do
+      let cat ← catOf c
+      let name ← VL.hexDecode nm
+      let rf ← (if ref == "-" then some none else ref.toNat?.map some)
+      some (.named cat rf name, r)
+  | "L" :: r => do let (e, r) ← parseATy r; some (.list e, r)
+  | "T" :: r => do let (e, r) ← parseATy r; some (.set e, r)
+  | "M" :: r => do let (k, r) ← parseATy r; let (v, r) ← parseATy r; some (.map k v, r)
+  | c :: r => do
+      let cat ← catOf c
+      if cat.isBase then some (.base cat, r) else none
+  | [] => none
+
+def parseExtra (t : String) : Option (Option Extra) :=
+  if t == "-" then some none else
+  match t.splitOn ":" with
+  | [e, idx, nm, sel] => do
+      let name ← VL.hexDecode nm
+      let s ← VL.hexDecode sel
+      let i ← (if idx == "-" then some none else idx.toNat?.map some)
+      some (some { isEnum := e == "E1", index := i, name := name, sel := s })
+  | _ => none
+
+def pairCV : List CV → List (CV × CV)
+  | k :: v :: r => (k, v) :: pairCV r
+  | _ => []
+
+mutual
+partial def parseCV : P CV
+  | "V" :: idt :: ex :: r => do
+      let s ← VL.hexDecode idt
+      let x ← parseExtra ex
+      some (.ident s x, r)
+  | "L" :: n :: r => do let k ← n.toNat?; let (xs, r) ← parseCVs k r; some (.list xs, r)
+  | "M" :: n :: r => do let k ← n.toNat?; let (xs, r) ← parseCVs (2 * k) r; some (.map (pairCV xs), r)
+  | t :: r =>
+      match t.toList with
+      | 'I' :: ds => do let v ← (String.ofList ds).toInt?; some (.int v, r)
+      | 'D' :: ds =>
+          match (String.ofList ds).splitOn ":" with
+          | [b, tx] => do
+              let bits ← hexNat b
+              let txt ← VL.hexDecode tx
+              some (.dbl bits txt, r)
+          | _ => none
+      | 'X' :: ds => do let b ← VL.hexDecode (String.ofList ds); some (.lit b, r)
+      | _ => none
+  | [] => none
+partial def parseCVs : Nat → P (List CV)
+  | 0, r => some ([], r)
+  | n+1, r => do let (x, r) ← parseCV r; let (xs, r) ← parseCVs n r; some (x :: xs, r)
+end
+
+/-! ### state -/
+
+structure Names where
+  globals : List (Nat × Name × Bytes) := []            -- (file, IDL name) ↦ Go name
+  enumVals : List (Nat × Name × Name × Bytes) := []    -- (file, enum, value) ↦ Go name
+  fields : List (Nat × Name × Nat × Bytes) := []       -- (file, struct, field index) ↦ Go field name
+  quals : List (Nat × Nat × Bytes) := []               -- (root file, file) ↦ package qualifier
+  deriving Inhabited
+
+structure Unit where
+  env : Env := { files := [] }
+  names : Names := {}
+  sidx : List (Nat × Nat × Name) := []                 -- schema index ↦ (file, struct name)
+  deriving Inhabited
+
+structure St where
+  progs : Progs := []
+  units : List (String × Unit) := []
+  deriving Inhabited
+
+def St.unit (s : St) (u : String) : Unit := ((s.units.find? (·.1 == u)).map (·.2)).getD {}
+
+def St.setUnit (s : St) (u : String) (x : Unit) : St :=
+  if s.units.any (·.1 == u) then { s with units := s.units.map fun (k, v) => if k == u then (k, x) else (k, v) }
+  else { s with units := (u, x) :: s.units }
+
+def updFile (E : Env) (i : Nat) (f : FileEnv → FileEnv) : Env :=
+  { E with files := (E.files.zipIdx).map fun (fe, k) => if k == i then f fe else fe }
+
+partial def parseIncs : Nat → P (List (Nat × Bool))
+  | 0, r => some ([], r)
+  | n+1, t :: r =>
+      match t.splitOn ":" with
+      | [a, b] => do
+          let k ← a.toNat?
+          let (xs, r) ← parseIncs n r
+          some ((k, b == "1") :: xs, r)
+      | _ => none
+  | _, _ => none
+
+partial def parseNames : Nat → P (List Name)
+  | 0, r => some ([], r)
+  | n+1, t :: r => do let b ← VL.hexDecode t; let (xs, r) ← parseNames n r; some (b :: xs, r)
+  | _, _ => none
+
+partial def parseEnumVals : Nat → P (List (Name × Int))
+  | 0, r => some ([], r)
+  | n+1, a :: b :: r => do
+      let nm ← VL.hexDecode a
+      let v ← b.toInt?
+      let (xs, r) ← parseEnumVals n r
+      some ((nm, v) :: xs, r)
+  | _, _ => none
+
+partial def parseAFields : Nat → P (List AField)
+  | 0, r => some ([], r)
+  | n+1, a :: rq :: r => do
+      let nm ← VL.hexDecode a
+      let req ← parseReq rq
+      let (ty, r) ← parseATy r
+      let (xs, r) ← parseAFields n r
+      some ({ name := nm, req := req, ty := ty, dflt := none } :: xs, r)
+  | _, _ => none
+
+def envLine (s : St) (toks : List String) : Option (St × String) :=
+  match toks with
+  | ["CP", u, nf, vt] => do
+      let n ← nf.toNat?
+      let x : Unit := { env := { files := List.replicate n { ns := 0, includes := [] }, vtic := vt == "1" } }
+      some (s.setUnit u x, "ok")
+  | "CF" :: u :: fi :: ns :: ninc :: rest => do
+      let i ← fi.toNat?
+      let nsv ← ns.toNat?
+      let k ← ninc.toNat?
+      let (incs, rest) ← parseIncs k rest
+      match rest with
+      | no :: rest => do
+          let m ← no.toNat?
+          let (others, rest) ← parseNames m rest
+          if rest != [] then none else
+          let x := s.unit u
+          some (s.setUnit u { x with env := updFile x.env i fun fe => { fe with ns := nsv, includes := incs, others := others } }, "ok")
+      | _ => none
+  | "CE" :: u :: fi :: nm :: n :: rest => do
+      let i ← fi.toNat?
+      let name ← VL.hexDecode nm
+      let k ← n.toNat?
+      let (vals, rest) ← parseEnumVals k rest
+      if rest != [] then none else
+      let x := s.unit u
+      some (s.setUnit u { x with env := updFile x.env i fun fe => { fe with enums := fe.enums ++ [{ name := name, values := vals }] } }, "ok")
+  | "CT" :: u :: fi :: nm :: rest => do
+      let i ← fi.toNat?
+      let name ← VL.hexDecode nm
+      let (ty, rest) ← parseATy rest
+      if rest != [] then none else
+      let x := s.unit u
+      some (s.setUnit u { x with env := updFile x.env i fun fe => { fe with typedefs := fe.typedefs ++ [{ name := name, ty := ty }] } }, "ok")
+  | "CS" :: u :: fi :: nm :: sx :: n :: rest => do
+      let i ← fi.toNat?
+      let name ← VL.hexDecode nm
+      let k ← n.toNat?
+      let (fs, rest) ← parseAFields k rest
+      if rest != [] then none else
+      let x := s.unit u
+      let sidx := match sx.toNat? with
+        | some j => x.sidx ++ [(j, i, name)]
+        | none => x.sidx
+      some (s.setUnit u { x with sidx := sidx, env := updFile x.env i fun fe => { fe with structs := fe.structs ++ [{ name := name, fields := fs }] } }, "ok")
+  | "CD" :: u :: fi :: nm :: fx :: rest => do
+      let i ← fi.toNat?
+      let name ← VL.hexDecode nm
+      let j ← fx.toNat?
+      let (cv, rest) ← parseCV rest
+      if rest != [] then none else
+      let x := s.unit u
+      some (s.setUnit u { x with env := updFile x.env i fun fe => { fe with structs := fe.structs.map fun st =>
+        if st.name == name then { st with fields := (st.fields.zipIdx).map fun (f, k) => if k == j then { f with dflt := some cv } else f } else st } }, "ok")
+  | "CC" :: u :: fi :: nm :: rest => do
+      let i ← fi.toNat?
+      let name ← VL.hexDecode nm
+      let (ty, rest) ← parseATy rest
+      let (cv, rest) ← parseCV rest
+      if rest != [] then none else
+      let x := s.unit u
+      some (s.setUnit u { x with env := updFile x.env i fun fe => { fe with consts := fe.consts ++ [{ name := name, ty := ty, val := cv }] } }, "ok")
+  | ["GN", u, fi, nm, gn] => do
+      let i ← fi.toNat?
+      let name ← VL.hexDecode nm
+      let g ← VL.hexDecode gn
+      let x := s.unit u
+      some (s.setUnit u { x with names := { x.names with globals := (i, name, g) :: x.names.globals } }, "ok")
+  | ["GV", u, fi, en, vn, gn] => do
+      let i ← fi.toNat?
+      let e ← VL.hexDecode en
+      let v ← VL.hexDecode vn
+      let g ← VL.hexDecode gn
+      let x := s.unit u
+      some (s.setUnit u { x with names := { x.names with enumVals := (i, e, v, g) :: x.names.enumVals } }, "ok")
+  | ["GF", u, fi, sn, fx, gn] => do
+      let i ← fi.toNat?
+      let sname ← VL.hexDecode sn
+      let j ← fx.toNat?
+      let g ← VL.hexDecode gn
+      let x := s.unit u
+      some (s.setUnit u { x with names := { x.names with fields := (i, sname, j, g) :: x.names.fields } }, "ok")
+  | ["GQ", u, ri, fi, q] => do
+      let r ← ri.toNat?
+      let i ← fi.toNat?
+      let g ← VL.hexDecode q
+      let x := s.unit u
+      some (s.setUnit u { x with names := { x.names with quals := (r, i, g) :: x.names.quals } }, "ok")
+  | _ => none
+
+/-! ### printing Go text (whitespace-free) -/
+
+def Names.global (n : Names) (f : Nat) (nm : Name) : String :=
+  match n.globals.find? (fun (a, b, _) => a == f && b == nm) with
+  | some (_, _, g) => VL.ascii g
+  | none => "?" ++ VL.ascii nm
+
+def Names.enumVal (n : Names) (f : Nat) (en v : Name) : String :=
+  match n.enumVals.find? (fun (a, b, c, _) => a == f && b == en && c == v) with
+  | some (_, _, _, g) => VL.ascii g
+  | none => "?" ++ VL.ascii en ++ "." ++ VL.ascii v
+
+def Names.field (n : Names) (f : Nat) (sn : Name) (i : Nat) : String :=
+  match n.fields.find? (fun (a, b, c, _) => a == f && b == sn && c == i) with
+  | some (_, _, _, g) => VL.ascii g
+  | none => s!"?{i}"
+
+def Names.qual (n : Names) (root f : Nat) : String :=
+  match n.quals.find? (fun (a, b, _) => a == root && b == f) with
+  | some (_, _, g) => VL.ascii g ++ "."
+  | none => "?."
+
+def baseName : Cat → String
+  | .bool => "bool" | .i8 => "int8" | .i16 => "int16" | .i32 => "int32" | .i64 => "int64"
+  | .dbl => "float64" | .str => "string" | .bin => "[]byte" | _ => "?"
+
+def showTy (n : Names) (root : Nat) : GoTy → String
+  | .base c => baseName c
+  | .named f nm q => (if q then n.qual root f else "") ++ n.global f nm
+  | .slice p e => "[]" ++ (if p then "*" else "") ++ showTy n root e
+  | .map kp k vp v => "map[" ++ (if kp then "*" else "") ++ showTy n root k ++ "]" ++ (if vp then "*" else "") ++ showTy n root v
+  | .bad => ""
+
+partial def showExpr (E : Env) (n : Names) (root : Nat) : GoExpr → String
+  | .boolLit b => if b then "true" else "false"
+  | .intLit k => toString k
+  | .floatOfInt k => toString k ++ ".0"
+  | .floatLit _ txt => VL.ascii txt
+  | .strLit raw => String.ofList (raw.map Char.ofNat)
+  | .ident (.global f nm) => (if qual E root f then n.qual root f else "") ++ n.global f nm
+  | .ident (.enumVal f en v) => (if qual E root f then n.qual root f else "") ++ n.enumVal f en v
+  | .conv ty _ e => showTy n root ty ++ "(" ++ showExpr E n root e ++ ")"
+  | .bytesConv e => "[]byte(" ++ showExpr E n root e ++ ")"
+  | .sliceLit ty es => showTy n root ty ++ "{" ++ String.join (es.map fun e => showExpr E n root e ++ ",") ++ "}"
+  | .mapLit ty kvs => showTy n root ty ++ "{" ++ String.join (kvs.map fun (k, v) => showExpr E n root k ++ ":" ++ showExpr E n root v ++ ",") ++ "}"
+  | .structLit ty file sn ents => "&" ++ showTy n root ty ++ "{" ++
+      String.join (ents.map fun (i, e) => n.field file sn i ++ ":" ++ showExpr E n root e ++ ",") ++ "}"
+  | .addr e => "&" ++ showExpr E n root e
+  | .ptrTrick ty e => "(&struct{x" ++ showTy n root ty ++ "}{" ++ showExpr E n root e ++ "}).x"
+
+/-- the text is compared byte-wise as hex (string literals may hold any byte) -/
+def textOut (s : String) : String := VL.hexEncode (s.toUTF8.toList.map (·.toNat))
+
+/-! ### ops -/
+
+def constFuel (E : Env) : Nat := (E.files.map (·.consts.length)).sum + 1
+
+def resTag {α} : Res α → String
+  | .ok _ => "accept" | .err => "reject" | .panic => "panic"
+
+/-- first non-ok outcome over all constants and field defaults of the unit, in thriftgo's order per file:
+    struct fields first, then constants -/
+def unitVerdict (E : Env) : String :=
+  let perFile := (E.files.zipIdx).map fun (fe, i) =>
+    let ds := fe.structs.flatMap fun st => st.fields.filterMap fun f =>
+      match f.dflt with
+      | some d => some (resTag (resolveConst E i i f.ty d))
+      | none => none
+    let cs := fe.consts.map fun c => resTag (resolveConst E i i c.ty c.val)
+    ds ++ cs
+  let all := perFile.flatten
+  if all.contains "panic" then "panic" else if all.contains "reject" then "reject" else "accept"
+
+def withDefaults (x : Unit) (P : Prog) (sidx : Nat) (sd : StructDef) : StructDef :=
+  match x.sidx.find? (·.1 == sidx) with
+  | some (_, file, name) =>
+      match x.env.findStruct file name with
+      | some st => if st.fields.length == sd.fields.length then structDefOf x.env (constFuel x.env) file st sd else sd
+      | none => sd
+  | none => let _ := P; sd
+
+/-- the schema with the model's defaults in place of the generator's -/
+def progOf (x : Unit) (P : Prog) : Prog :=
+  { P with structs := (P.structs.zipIdx).map fun (sd, i) => withDefaults x P i sd }
+
+def showOpt (P : Prog) (ty : Ty) : Option GoVal → String
+  | some v => "ok " ++ showVal P ty v
+  | none => "none"
+
+partial def showGetters (P : Prog) : List FieldDef → List GoVal → String
+  | f :: fs, v :: vs =>
+      " " ++ showVal P f.ty (getter f v) ++ " " ++ (if supportIsSet f then VL.boolStr (Std.isSet f v) else "-") ++ showGetters P fs vs
+  | _, _ => ""
+
+def step (s : St) (line : String) : St × String :=
+  let toks := VL.toks line
+  match schemaLine s.progs toks with
+  | some (ps, out) => ({ s with progs := ps }, out)
+  | none =>
+    match envLine s toks with
+    | some r => r
+    | none =>
+      match toks with
+      | "K" :: u :: fi :: nm :: rest =>
+          match fi.toNat?, VL.hexDecode nm, parseTy rest, s.progs.get u with
+          | some f, some name, some (ty, []), some P =>
+              let x := s.unit u
+              (s, showOpt (progOf x P) ty (goEnvOf x.env (constFuel x.env) f name))
+          | _, _, _, _ => (s, "bad-op")
+      | "KI" :: u :: fi :: nm :: rest =>
+          match fi.toNat?, VL.hexDecode nm, parseTy rest, s.progs.get u with
+          | some f, some name, some (ty, []), some P =>
+              let x := s.unit u
+              (s, showOpt (progOf x P) ty (idlEnvOf x.env (constFuel x.env) f name))
+          | _, _, _, _ => (s, "bad-op")
+      | ["KT", u, fi, nm] =>
+          match fi.toNat?, VL.hexDecode nm with
+          | some f, some name =>
+              let x := s.unit u
+              match x.env.findConst f name with
+              | some c => match resolveConst x.env f f c.ty c.val with
+                | .ok e => (s, "ok " ++ textOut (showExpr x.env x.names f e))
+                | .err => (s, "reject")
+                | .panic => (s, "panic")
+              | none => (s, "bad-op")
+          | _, _ => (s, "bad-op")
+      | ["DT", u, fi, sn, fx] =>
+          match fi.toNat?, VL.hexDecode sn, fx.toNat? with
+          | some f, some sname, some j =>
+              let x := s.unit u
+              match (x.env.findStruct f sname).bind (·.fields[j]?) with
+              | some fd => match fd.dflt with
+                | some d => match resolveConst x.env f f fd.ty d with
+                  | .ok e => (s, "ok " ++ textOut (showExpr x.env x.names f e))
+                  | .err => (s, "reject")
+                  | .panic => (s, "panic")
+                | none => (s, "bad-op")
+              | none => (s, "bad-op")
+          | _, _, _ => (s, "bad-op")
+      | ["Q", u] => (s, unitVerdict (s.unit u).env)
+      | ["N", key] | ["Z", key] =>
+          match splitKey key with
+          | some (u, i) => match s.progs.get u with
+            | some P =>
+                let P' := progOf (s.unit u) P
+                match P'.struct? i with
+                | some sd =>
+                    if toks.head? == some "N" then (s, "ok " ++ showVal P' (.struct i) (newX sd))
+                    else (s, "ok " ++ showVal P' (.struct i) (initDefault sd (zeroStruct sd)))
+                | none => (s, "bad-op")
+            | none => (s, "bad-op")
+          | none => (s, "bad-op")
+      | "G" :: key :: rest =>
+          match splitKey key with
+          | some (u, i) => match s.progs.get u, parseVal rest with
+            | some P, some (.strct vs, []) =>
+                let P' := progOf (s.unit u) P
+                match P'.struct? i with
+                | some sd => (s, "ok" ++ showGetters P' sd.fields vs)
+                | none => (s, "bad-op")
+            | _, _ => (s, "bad-op")
+          | none => (s, "bad-op")
+      | ["U", hx] =>
+          match VL.hexDecode hx with
+          | some raw => (s, match goUnquote raw with
+              | some b => "ok " ++ VL.hexEncode b
+              | none => "none")
+          | none => (s, "bad-op")
+      | ["UI", hx] =>
+          match VL.hexDecode hx with
+          | some raw => (s, match interp raw with
+              | some b => "ok " ++ VL.hexEncode b
+              | none => "none")
+          | none => (s, "bad-op")
+      | _ => (s, "bad-op")
+
+end Driver.C06
+
+def main : IO Unit := Driver.stateLoop ({} : Driver.C06.St) Driver.C06.step
